@@ -91,7 +91,7 @@ def lookup_method(model, t, meth):
     env = dict(zip(params, args))
     for name, ret in model.get(cls, []):
         if name == meth:
-            return subst(ret, env)
+            return ["any"] if any(v not in env for v in _tvs(ret)) else subst(ret, env)
     if base is not None and base[0] == "c":
         return lookup_method(model, subst(base, env), meth)
     return None
@@ -107,12 +107,26 @@ def all_methods(model, t):
     seen = set()
     for name, ret in model.get(cls, []):
         seen.add(name)
-        out.append((name, subst(ret, env)))
+        # a type variable that nothing binds: nothing is known about the result
+        out.append((name, ["any"] if any(v not in env for v in _tvs(ret)) else subst(ret, env)))
     if base is not None and base[0] == "c":
         for name, ret in all_methods(model, subst(base, env)):
             if name not in seen:
                 out.append((name, ret))
     return out
+
+
+def _tvs(t):
+    """names of the type variables in a type IR"""
+    if not isinstance(t, list) or not t:
+        return []
+    if t[0] == "tv":
+        return [t[1]]
+    if t[0] == "it":
+        return _tvs(t[1])
+    if t[0] == "c":
+        return [v for x in t[2] for v in _tvs(x)]
+    return []
 
 
 def elem_of(t):
@@ -178,6 +192,8 @@ def _model(draw):
     m[draw(st.sampled_from(["Evt", "Jet"]))].append(["anys", draw(st.sampled_from([["it", ["any"]], ["c", "MyIt", [["any"]]]]))])
     m["It2"].append(["Key", ["tv", "K"]])
     m["Mix"].append(["got", ["tv", "T"]])
+    # a method-level type variable on a class that is not generic: the return type cannot be worked out (Any), the method is there
+    m[draw(st.sampled_from(["Trk", "Jet"]))].append(["unb", draw(st.sampled_from([["tv", "U"], ["it", ["tv", "U"]]]))])
     # the dataclass has methods next to its fields
     m["Info"] = [["score", draw(st.sampled_from(_SCAL + [["c", "Trk", []], ["it", ["c", "Trk", []]]]))], ["raw", None]]
     # the sources of the mixed-arity subclasses must be reachable from the event
